@@ -103,3 +103,44 @@ pub fn c06_core_ascii_classes_match() {
     let c: char = kani::any();
     assert!(c.is_ascii() == ((c as u32) < 128));
 }
+
+/// Symbol::from_chars (the reader behind FromStr of names and behind IterScanner): it looks at four characters at most,
+/// so four symbolic characters and a symbolic length are all inputs there are. Against RFC 1035 5.1 written out
+/// independently: a plain character stands for itself; `\DDD` with three decimal digits is the octet DDD exactly when
+/// DDD <= 255; `\X` with X a printable ASCII character other than a digit is X; everything else is an error; the
+/// empty source gives None; and exactly the characters of the symbol are consumed.
+#[kani::proof]
+#[kani::unwind(6)]
+pub fn c06_symbol_from_chars_all_inputs() {
+    let cs: [char; 4] = kani::any();
+    let n: usize = kani::any();
+    kani::assume(n <= 4);
+    let mut it = cs[..n].iter().copied();
+    let r = Symbol::from_chars(&mut it);
+    let left = it.len();
+    let digit = |c: char| ('0'..='9').contains(&c);
+    let val = |c: char| c as u32 - '0' as u32;
+    if n == 0 {
+        assert!(matches!(r, Ok(None)));
+    } else if cs[0] != '\\' {
+        assert!(r == Ok(Some(Symbol::Char(cs[0]))) && left == n - 1);
+    } else if n == 1 {
+        assert!(r.is_err());
+    } else if digit(cs[1]) {
+        if n >= 4 && digit(cs[2]) && digit(cs[3]) {
+            let v = val(cs[1]) * 100 + val(cs[2]) * 10 + val(cs[3]);
+            kani::cover!(v == 255);
+            if v <= 255 {
+                assert!(r == Ok(Some(Symbol::DecimalEscape(v as u8))) && left == n - 4);
+            } else {
+                assert!(r.is_err());
+            }
+        } else {
+            assert!(r.is_err());
+        }
+    } else if (cs[1] as u32) >= 0x20 && (cs[1] as u32) <= 0x7E {
+        assert!(r == Ok(Some(Symbol::SimpleEscape(cs[1] as u8))) && left == n - 2);
+    } else {
+        assert!(r.is_err());
+    }
+}
